@@ -29,17 +29,21 @@ import skeleton_extract as SX  # noqa: E402
 LEAN_PROPS = ["NmlVerif.Props.C08", "NmlVerif.Props.C08Gen"]
 LEAN_EXTRA = ["NmlVerif.Gen.Skeletons"]
 LEVEL = "proof"
-RULE = ("generated cases x every fault point: XML documents (cells, point neurons, networks, notes with markup "
-        "characters, ill-typed members), HDF5-able networks (populations with/without instances and properties, "
-        "projections with/without weights and segment info, electrical/continuous projections, input lists, the "
-        "unsupported synapticConnection/explicitInput, empty projections), array morphologies (single, documents of "
-        "cells with/without ids), HDF5 and array-morphology files to read (intact and damaged: missing root group, "
-        "malformed embedded XML, wrong array shape); for each, a fault-free run, then an injected OSError-class and "
-        "(writers) AttributeError-class exception at file-layer call 1..n (all calls up to 60, then a seeded sample), "
-        "plus the failures the input itself provokes.  One evaluation = one (case, fault point, exception class); "
-        "non-trivial = the fault point lies strictly after the open call (something is there to leak); distinct = "
-        "distinct (entry point, site of the faulted call, exception class, calls made so far mod structure).  "
-        "Truncation: every byte offset of small written XML files, every 97th of large ones.")
+RULE = ("generated cases x every fault point.  Cases: XML documents (cells, point neurons, networks, notes with markup "
+        "characters, ill-typed members that make export raise ValueError/AttributeError), HDF5-able networks "
+        "(populations with/without instances and properties, projections with/without weights and segment info, "
+        "electrical/continuous projections, input lists, the refused synapticConnection/explicitInput, empty "
+        "projections/input lists, a second network, None ids/delays), array morphologies (single, documents of cells "
+        "with/without ids, colliding cell ids, stand-alone morphologies), HDF5 and array-morphology files to read "
+        "(intact and damaged: missing root group, malformed embedded XML, wrong array shape, missing attribute, not "
+        "an HDF5 file).  For each case: a fault-free run, then an injected OSError-class and (writers) "
+        "AttributeError-class exception at file-layer call 1..n (all calls when n <= 40 [thorough 150], else the "
+        "first 12, the last 3 and a seeded sample), plus the failure the input itself provokes and a retry with the "
+        "cause removed.  One evaluation = one (case, fault point, exception class) or one (written XML file, cut "
+        "offset); a fault evaluation is non-trivial when the fault point lies after the open call (there is "
+        "something to leak), a cut when it lies strictly inside the document; distinct = distinct (entry point, "
+        "skeleton site of the faulted call, exception class, position 1/2/3/later) resp. (document, offset).  "
+        "Truncation: every byte offset of files <= 4000 bytes, every 97th of larger ones.")
 TRUST = [
     "the skeleton translator (translators/skeleton_extract.py) is validated, not verified: every real file-layer call "
     "of every run must be labelled with a site of the extracted skeleton and the model run on it must reproduce the "
@@ -65,6 +69,7 @@ KIND_CLASS = {"openNoFinally": "leak", "bareClose": "leak", "mutateNoRestore": "
               "unsupported": "unsupported"}
 GEN = os.path.join(fw.LEAN, "NmlVerif", "Gen", "Skeletons.lean")
 
+FAULT_KEYS = set()  # distinct non-trivial fault evaluations (reported separately from truncation offsets)
 SK = None          # translator result for fw.REPO
 LIBDIR = None
 
@@ -963,6 +968,8 @@ def run_case(ctx, case, cap=60):
                 fl = [c for c in o["calls"] if c[1] != 8]
                 fsite = fl[k - 1][0] if len(fl) >= k else site
                 ctx.seen([name, fsite, fk, k if k < 4 else 4], nontrivial=(k > 1))
+                if k > 1:
+                    FAULT_KEYS.add((name, fsite, fk, k if k < 4 else 4))
                 ctx.count("fault:%s:%s" % (kind, {0: "open", 1: "close"}.get(fl[k - 1][1], "io") if len(fl) >= k else "?"))
                 check_oracle(ctx, case, name, kind, obj, path, o, (k, fk))
         ctx.sample({"kind": kind, "entry": name, "file_layer_calls": n, "fault_points": len(pts),
@@ -1401,6 +1408,7 @@ def run(ctx):
         else:
             trunc_compare(ctx, pending, [json.loads(x) for x in out])
     ctx.extra["exhaustive"] = False
+    ctx.extra["distinct_nontrivial_fault_points"] = len(FAULT_KEYS)
 
 
 def replay(ctx, payload):
